@@ -13,7 +13,7 @@ Call(op, s, ps, res) == [op |-> op, s |-> s, ps |-> ps, res |-> res, match |-> A
 
 (* every statement object exists when a history starts (the usual way: parse once, execute many times);
    Parse replaces an object by a new one *)
-GInit == /\ Init!2 /\ Init!3 /\ Init!4
+GInit == /\ Init!2 /\ Init!3 /\ Init!4 /\ Init!5
          /\ stmts = [s \in 1..NStmts |-> [parsed |-> TRUE, names |-> FreshNames(Text(s))]]
          /\ hist = <<>>
 GNext ==
